@@ -104,6 +104,13 @@ def sites(src_root):
     return res
 
 
+def _set_output(X, name):
+    if hasattr(X, "set_dataset_output"):
+        X.set_dataset_output(name)
+    else:
+        X.dataset_output = name
+
+
 class Check:
     ID = "C26"
     LEVEL = "exploration"
@@ -152,17 +159,35 @@ class Check:
                 if s["star"]:
                     missing = []  # **kwargs forwarded: cannot be decided statically, executed by the monitor
                     rec.count("star_kwargs_sites")
-                try:
-                    kwargs = {k: "x" for k in s["kw"]}
-                    if s["star"]:
-                        kwargs.update({k: "x" for k in need})
-                    cls(code=code, **kwargs) if s["cls"] == "InputValidationException" else cls(code, **kwargs)
-                    ok = True
-                    err = None
-                except Exception as e:  # noqa: BLE001
-                    ok, err = False, "%s: %s" % (type(e).__name__, e)
+                ok, err = True, None
+                # the message is rendered with data the engine does not control: argument values and the name of the output
+                # dataset of the running statement (appended to the message) may contain braces or percent signs
+                for dsname in (None, "DS_r", "r{x}", "{op}_out", "r{"):
+                    for val in ("x", "{x}", "{", "%s %d"):
+                        try:
+                            _set_output(X, dsname)
+                            kwargs = {k: val for k in s["kw"]}
+                            if s["star"]:
+                                kwargs.update({k: val for k in need})
+                            exc = cls(code=code, **kwargs) if s["cls"] == "InputValidationException" else cls(code, **kwargs)
+                            rec.count("instantiations")
+                            if dsname and s["cls"] != "InputValidationException" and dsname not in str(exc.args[0]):
+                                ok, err = False, "output dataset name %r is not rendered verbatim in %r" % (dsname, str(exc.args[0])[:120])
+                        except Exception as e:  # noqa: BLE001
+                            ok, err = False, "%s: %s (output dataset %r, argument value %r)" % (type(e).__name__, e, dsname, val)
+                        finally:
+                            _set_output(X, None)
+                        if not ok:
+                            break
+                    if not ok:
+                        break
                 if ok and not missing:
                     rec.case(key, "renders", sample=sample)
+                elif not missing:
+                    rec.case(key, "fails-to-render", sample=sample)
+                    rec.violation("C26:class:%s:message-rendering-depends-on-data" % s["cls"],
+                                  "%s: constructing %s(%r) fails or garbles the message for some data: %s" % (where, s["cls"], code, err),
+                                  {"kind": "site", "file": s["file"], "line": s["line"], "cls": s["cls"], "code": code, "kw": s["kw"], "data": True})
                 else:
                     rec.case(key, "fails-to-render", sample=sample)
                     rec.violation("C26:site:%s:%s:missing-placeholder:%s" % (s["file"], code, ",".join(missing) or "?"),
@@ -198,9 +223,16 @@ class Check:
         if data["kind"] == "site":
             cls = getattr(X, data["cls"])
             try:
-                kwargs = {k: "x" for k in data["kw"]}
-                cls(code=data["code"], **kwargs) if data["cls"] == "InputValidationException" else cls(data["code"], **kwargs)
+                for dsname in ((None,) if not data.get("data") else (None, "DS_r", "r{x}", "{op}_out", "r{")):
+                    for val in (("x",) if not data.get("data") else ("x", "{x}", "{", "%s %d")):
+                        _set_output(X, dsname)
+                        kwargs = {k: val for k in data["kw"]}
+                        exc = cls(code=data["code"], **kwargs) if data["cls"] == "InputValidationException" else cls(data["code"], **kwargs)
+                        if dsname and data["cls"] != "InputValidationException" and dsname not in str(exc.args[0]):
+                            return True
                 return data["code"] not in CAT
             except Exception:
                 return True
+            finally:
+                _set_output(X, None)
         return False
